@@ -233,6 +233,19 @@ int main()
             out = describe(k, s, true);
             if (not client_pool) out += "\n@string_pool_of_the_client_agrees=0";
          }
+         else if (op == "getview") {
+            // `getview L<k> <hex> n<j> <off>`: the word <hex> handed over as a VIEW INTO THE CHARACTERS of the earlier result n<j> (at
+            // offset <off>): a client slicing a token out of a String the Lexicon itself holds
+            int k = lex_index(a);
+            const auto w = parse_hex(b);
+            const std::size_t j = std::stoul(c.substr(1)), off = std::stoul(d);
+            if (j >= names.size()) out = "bad-name";
+            else {
+               const auto chars = names[j].node->characters();
+               if (off + w.size() > chars.size() or std::memcmp(chars.data() + off, w.data(), w.size()) != 0) out = "bad-op";
+               else out = describe(k, lexicon[k]->get_string(word_view(chars.data() + off, w.size())), true);
+            }
+         }
          else if (op == "inject") {
             int k = lex_index(a);
             auto wa = parse_hex(b);
